@@ -1,12 +1,15 @@
 #!/bin/sh
-# usage: tools/try_mutant.sh <patch.diff> <tier> <PID> [<PID>...]   -- apply a seeded change to /repo, run checks, undo
+# usage: tools/try_mutant.sh <patch.diff> <tier> <PID> [<PID>...]
+# Applies a seeded change to a scratch worktree of /repo (never to /repo itself), runs the named checks against
+# that worktree (VERIF_REPO), prints their verdict lines, removes the worktree.  Evidence and replay files of these
+# runs go to .work/mut-evidence, not to /verif/evidence.
 patch=$(readlink -f "$1"); tier=$2; shift 2
 cd /verif
-git -C /repo diff --quiet || { echo "/repo not clean"; exit 2; }
-git -C /repo apply "$patch" || { echo "patch does not apply"; exit 2; }
+wt=/tmp/mutrepo-$$
+git -C /repo worktree add -q --detach $wt HEAD || exit 2
+git -C $wt apply "$patch" || { echo "patch does not apply"; git -C /repo worktree remove --force $wt; exit 2; }
 for p in "$@"; do
-  out=$(bin/check $p --tier $tier 2>&1); rc=$?
-  echo "== $p rc=$rc"; echo "$out" | grep -E "^(property=|VIOLATION|HARNESS-ERROR|KNOWN-FINDING|INCONCLUSIVE|  violation)" | cut -c1-400 | head -12
+  out=$(VERIF_REPO=$wt VERIF_EVIDENCE_DIR=/verif/.work/mut-evidence VERIF_REPLAY_DIR=/verif/.work/mut-replays bin/check $p --tier $tier 2>&1); rc=$?
+  echo "== $p rc=$rc"; echo "$out" | grep -E "^(property=|VIOLATION|HARNESS-ERROR|KNOWN-FINDING|INCONCLUSIVE|  violation)" | cut -c1-400 | head -8
 done
-git -C /repo checkout -- .
-git -C /repo status --short | head -3
+git -C /repo worktree remove --force $wt
